@@ -25,6 +25,8 @@ def gen_cases(seed, tier, n):
         c["params"] = {"include_last": rng.random() < 0.5}
         if i % 6 == 4:
             tracegen.add_idless_sync_record(c, rng)
+        if i % 7 == 5:
+            tracegen.big_correlation_ids(c, rng)        # ids around 2**31 / 2**32, and two ids that differ by exactly 2**32
         out.append(c)
     return out
 
